@@ -91,7 +91,11 @@ Proof.
       pose proof (gi_sorted h g I) as PS. rewrite Eg in PS.
       apply pairwise_snoc; [eapply pairwise_prefix; exact PS|].
       intros a Ha. pose proof (pairwise_last_in _ _ _ _ PS Ha) as Hb.
-      destruct a as [ca oa la|]; cbn [sl_before] in *; auto.
+      assert (Hin : In a (gslices g)) by (rewrite Eg; apply in_or_app; now left).
+      pose proof (Hbefore a Hin) as Hn. rewrite Enew in Hn.
+      assert (Hoka : sl_ok h' a) by (rewrite Forall_forall in Fold; now apply Fold).
+      destruct a as [ca oa la|]; cbn [sl_before sl_ok] in *; auto. intros ->.
+      specialize (Hb eq_refl). specialize (Hn eq_refl). lia.
     + exists true. split; [|split; [discriminate|]].
       * rewrite map_app. cbn [map]. rewrite sl_bytes_join.
         assert (Efront : map (sl_bytes h') front = map (sl_bytes h) front).
@@ -126,7 +130,7 @@ Lemma in_sl_before_new h g k' n s0 :
 Proof.
   intros I Hend Hin. destruct s0 as [c off len|bs]; cbn [sl_before]; auto. intros ->.
   pose proof (gi_slices h g I) as F. rewrite Forall_forall in F.
-  apply (Hend (SArena (kchunk k') off len) (F _ Hin) eq_refl).
+  left. apply (Hend (SArena (kchunk k') off len) (F _ Hin) eq_refl).
 Qed.
 
 Theorem push_copy_refines h g s src h' g' :
@@ -402,10 +406,10 @@ Proof.
   rewrite chunk_at_poke_same by tauto. cbn [cdata].
   destruct (Nat.lt_ge_cases j i) as [Hlt|Hge].
   - pose proof (gi_sorted h g I j i _ _ Hlt Hj Hi) as S. cbn [sl_before] in S. specialize (S eq_refl).
-    apply read_poke_before; lia.
+    destruct S as [S|S]; [apply read_poke_before; lia|f_equal; apply read_poke_after; lia].
   - assert (Hgt : (i < j)%nat) by lia.
     pose proof (gi_sorted h g I i j _ _ Hgt Hi Hj) as S. cbn [sl_before] in S. specialize (S eq_refl).
-    f_equal. apply read_poke_after; lia.
+    destruct S as [S|S]; [f_equal; apply read_poke_after; lia|apply read_poke_before; lia].
 Qed.
 
 Lemma GInv_poke h g c p src : GInv h g -> (c < length h)%nat -> p + nlen src <= nlen (cdata (chunk_at h c)) ->
